@@ -162,7 +162,7 @@ def handle (j : Json) : Except String Json := do
       match values[n - log0.length]? with
       | some v => v
       | none => none
-    let E : Env := ⟨S, parse, gen⟩
+    let E : Env := ⟨S, parse, gen, Generated.deriveMarksParamReadOnly⟩
     match replaceTop E repl fuel t log0 with
     | .error e => return jErr' e
     | .ok o =>
